@@ -47,7 +47,11 @@ def rand_criteria(rng):
     c = {}
     for a in rng.sample(list(ATTRS), rng.randint(1, 2)):
         pool = ATTRS[a] + (["missing-value"] if rng.random() < 0.2 else [])
-        c[a] = rng.sample(pool, rng.randint(1, len(pool) - 1))
+        vals = rng.sample(pool, rng.randint(1, len(pool) - 1))
+        # "the value is among the allowed ones": the allowed values as any collection supporting `in`
+        form = rng.random()
+        hashable = all(not isinstance(v, (list, dict)) for v in ATTRS[a] + vals)  # `x in a_set` needs x hashable: sets only where every value is
+        c[a] = vals if form < 0.6 else tuple(vals) if form < 0.75 or not hashable else set(vals) if form < 0.9 else frozenset(vals)
     return c
 
 
